@@ -87,13 +87,100 @@ func hostileBytes(r *RNG) []byte {
 	}
 }
 
+// weirdAttrs: a request body of attributes that are known to the handlers but have odd
+// lengths, odd values, odd multiplicity or the wrong company.
+func weirdAttrs(r *RNG) string {
+	types := []int{0x000C, 0x000D, 0x0012, 0x0013, 0x0016, 0x0017, 0x0018, 0x0019, 0x001A, 0x0020, 0x0022, 0x002A, 0x8000, 0x8022, 0x7F00, 0x0006, 0x0014, 0x0015}
+	lens := []int{0, 1, 2, 3, 4, 5, 7, 8, 9, 12, 16, 20, 21, 64}
+	out := ""
+	for n := r.Range(1, 5); n > 0; n-- {
+		t := types[r.Intn(len(types))]
+		v := r.Bytes(lens[r.Intn(len(lens))])
+		switch r.Intn(4) {
+		case 0: // well-formed value of that type, sometimes
+			switch t {
+			case 0x0012, 0x0016, 0x0020:
+				v = []byte{0, byte(r.PickInt([]int{1, 2, 0, 3})), 0x21, 0x12, 0x2B, 0x12, 0xA6, 0x43}
+				if v[1] == 2 {
+					v = append(v, r.Bytes(12)...)
+				}
+			case 0x000C:
+				v = []byte{byte(r.PickInt([]int{0x40, 0x7F, 0x3F, 0x80, 0})), byte(r.Intn(256)), 0, 0}
+			case 0x000D:
+				v = []byte{0, 0, byte(r.Intn(2)), byte(r.Intn(256))}
+			case 0x0019:
+				v = []byte{byte(r.PickInt([]int{17, 6, 0, 255})), 0, 0, 0}
+			case 0x0017, 0x8000:
+				v = []byte{byte(r.PickInt([]int{1, 2, 0, 3})), 0, 0, 0}
+			case 0x002A:
+				v = r.Bytes(4)
+			}
+		case 1:
+			for i := range v {
+				v[i] = 0
+			}
+		}
+		if out != "" {
+			out += ";"
+		}
+		out += fmt.Sprintf("%04x:%s", t, hex.EncodeToString(v))
+	}
+	return out
+}
+
+// genC09Authed: authenticated requests with odd bodies, from the owner of an allocation and
+// from a user without one, over UDP or a stream.
+func genC09Authed(p *Plan, r *RNG) {
+	baseSrvConfig(p, r)
+	p.Flavor = "hostile-authed"
+	if r.Chance(1, 3) {
+		p.Cfg.Listener = "tcp"
+		p.Flavor = "hostile-authed-tcp"
+		if r.Chance(1, 2) {
+			p.Cfg.Extra = map[string]int64{"tcp_peers": 1}
+		}
+	}
+	p.Clients = []ClientSpec{
+		{ID: "c1", Addr: "10.0.1.1:4000", User: "u1", Pass: "pw-one"},
+		{ID: "c2", Addr: "10.0.1.2:4013", User: "u2", Pass: "pw-two"},
+		{ID: "c3", Addr: "10.0.1.3:4026", User: "u3", Pass: "pw-three"},
+	}
+	p.Peers = []PeerSpec{{ID: "p1", Addr: "10.0.2.1:5000"}}
+	tr := ""
+	if p.Cfg.Extra["tcp_peers"] == 1 {
+		tr = "tcp"
+	}
+	p.Ops = append(p.Ops, Op{Actor: "c1", Kind: "allocate", At: gap(100 * ms), A: OpArgs{Lifetime: -1, Transport: tr}})
+	p.Ops = append(p.Ops, Op{Actor: "c1", Kind: "createperm", At: gap(200 * ms), A: OpArgs{Peer: "10.0.2.1:5000"}})
+	p.Ops = append(p.Ops, Op{Actor: "c2", Kind: "allocate", At: gap(100 * ms), A: OpArgs{Lifetime: -1}})
+	// c3 learns a nonce with a plain allocate that is refused (bad family) or accepted
+	p.Ops = append(p.Ops, Op{Actor: "c3", Kind: "allocate", At: gap(100 * ms), A: OpArgs{Lifetime: -1, Family: r.Pick([]string{"", "bad"})}})
+	n := r.Range(2, 14)
+	for i := 0; i < n; i++ {
+		who := r.Pick([]string{"c1", "c1", "c3"})
+		meth := r.Pick([]string{"allocate", "refresh", "createperm", "chanbind", "chanbind", "connect", "connbind"})
+		p.Ops = append(p.Ops, Op{Actor: who, Kind: "weird", At: gap(int64(r.Range(20, 600)) * ms), A: OpArgs{S: meth, Raw: weirdAttrs(r)}})
+	}
+	// liveness: everybody is still served, and the untouched allocation still works
+	p.Ops = append(p.Ops, Op{Actor: "c2", Kind: "binding", At: gap(500 * ms)})
+	p.Ops = append(p.Ops, Op{Actor: "c2", Kind: "refresh", At: gap(200 * ms), A: OpArgs{Lifetime: 600}})
+	if p.Cfg.Listener != "tcp" {
+		p.Ops = append(p.Ops, Op{Actor: "c1", Kind: "binding", At: gap(200 * ms)})
+		p.Ops = append(p.Ops, Op{Actor: "c3", Kind: "binding", At: gap(200 * ms)})
+	}
+	p.QuietNS = 5 * sec
+}
+
 func genC09(p *Plan, r *RNG) {
-	switch r.Intn(4) {
+	switch r.Intn(5) {
 	case 0:
 		genC09Client(p, r)
 		return
 	case 1:
 		genC09Frame(p, r)
+		return
+	case 2:
+		genC09Authed(p, r)
 		return
 	}
 	baseSrvConfig(p, r)
